@@ -25,6 +25,15 @@ std::istream & operator>>(std::istream & is, StringDelimiter<delimiter>& output)
     return is;
 }
 
+// Archive prefixes and entry names use backslashes; virtual paths use forward slashes and no leading separator here
+inline std::string pbo_generic_path(std::string s)
+{
+    std::replace(s.begin(), s.end(), '\\', '/');
+    s = std::filesystem::path(s).lexically_normal().generic_string();
+    auto first = s.find_first_not_of('/');
+    return first == std::string::npos ? std::string() : s.substr(first);
+}
+
 inline bool file_exists(std::filesystem::path p)
 {
     // opening a directory succeeds on some platforms; only regular files can be read
@@ -235,14 +244,14 @@ void sqf::fileio::impl_default::add_pbo_mapping(rvutils::pbo::pbofile& pbo)
     }
 
     m_pbos[pbo.path().lexically_normal().string()] = pbo;
-    std::filesystem::path prefix(*prefix_optional);
+    std::filesystem::path prefix(pbo_generic_path(*prefix_optional));
 
 
     // We need to register all files with the virtual pathing
     for (auto& file_desc : pbo.files())
     {
         // Construct file path
-        auto file_path = (prefix / file_desc.name).lexically_normal();
+        auto file_path = (prefix / pbo_generic_path(file_desc.name)).lexically_normal();
         auto path_iter = file_path.begin();
 
         // Navigate to last available virtual file node from root node
@@ -377,14 +386,22 @@ std::string sqf::fileio::impl_default::read_file(sqf::runtime::fileio::pathinfo 
                 log(logmessage::fileio::PBOHasNoPrefixAttribute(physical.lexically_normal().string()));
                 return {};
             }
-            auto prefix = prefix_optional.value();
-            auto pbo_path = info.virtual_;
+            auto prefix = pbo_generic_path(prefix_optional.value());
+            auto pbo_path = pbo_generic_path(info.virtual_);
 
-            if (pbo_path.length() > prefix.length() + 1)
+            if (pbo_path.length() > prefix.length() + 1 && pbo_path.compare(0, prefix.length(), prefix) == 0 && pbo_path[prefix.length()] == '/')
             {
                 pbo_path = pbo_path.substr(prefix.length() + 1);
             }
-            std::transform(pbo_path.begin(), pbo_path.end(), pbo_path.begin(), [](char c) -> char { return c == '/' ? '\\' : c; });
+            // the entry is stored under the name the archive spells it with
+            for (auto& file_desc : res->second.files())
+            {
+                if (pbo_generic_path(file_desc.name) == pbo_path)
+                {
+                    pbo_path = file_desc.name;
+                    break;
+                }
+            }
 
             rvutils::pbo::pbofile::reader reader;
             if (res->second.read(pbo_path, reader))
